@@ -210,7 +210,7 @@ def SaneOp : Op → Prop
   | .hr _ _ rxt now => now < rxt + window
   | .utx _ rxt txt1 => txt1 < rxt + window
 
-theorem inv_step (cap icap : Nat) (hcap : 1 ≤ cap) (hic : 1 ≤ icap) (hic2 : icap < 1000000000)
+theorem C06_inv_step (cap icap : Nat) (hcap : 1 ≤ cap) (hic : 1 ≤ icap) (hic2 : icap < 1000000000)
     (st : State) (inv : Inv0 TxLater cap icap st) (op : Op) (hs : SaneOp op) :
     Inv0 TxLater cap icap (stepOp cap icap st op) := by
   cases op with
@@ -240,9 +240,9 @@ theorem C06_inv_run (cap icap : Nat) (hcap : 1 ≤ cap) (hic : 1 ≤ icap) (hic2
   | cons op ops ih =>
     intro hs st h
     exact ih (fun o ho => hs o (List.mem_cons_of_mem _ ho)) _
-      (inv_step cap icap hcap hic hic2 st h op (hs op List.mem_cons_self))
+      (C06_inv_step cap icap hcap hic hic2 st h op (hs op List.mem_cons_self))
 
-theorem inv_init (cap icap : Nat) : Inv0 TxLater cap icap init := by
+theorem C06_inv_init (cap icap : Nat) : Inv0 TxLater cap icap init := by
   refine ⟨⟨by simp [init, Map.keys], rfl, ?_, ?_⟩, by simp [init], ?_⟩
   · intro i hi; simp [init] at hi
   · intro k q hq; simp [init, pos] at hq
@@ -254,7 +254,7 @@ theorem C06_recorded_tx_later (ops : List Op) (hs : ∀ op ∈ ops, SaneOp op) (
     (e : Entry) (h : (run tssCap tssItemCap init ops).items.find k = some it) (he : e ∈ it.buf) :
     Later e.rx e.tx :=
   ((C06_inv_run tssCap tssItemCap (by decide) (by decide) (by decide) ops hs init
-    (inv_init _ _)).items k it h).good e he
+    (C06_inv_init _ _)).items k it h).good e he
 
 /-- no_cross_client: after every history, every exchange kept under a client id was written
     on behalf of that client (ghost owner), and (`C06_interleaved_shape`) an interleaved reply
@@ -263,7 +263,7 @@ theorem C06_no_cross_client (ops : List Op) (hs : ∀ op ∈ ops, SaneOp op) (k 
     (e : Entry) (h : (run tssCap tssItemCap init ops).items.find k = some it) (he : e ∈ it.buf) :
     e.owner = k :=
   ((C06_inv_run tssCap tssItemCap (by decide) (by decide) (by decide) ops hs init
-    (inv_init _ _)).items k it h).owner e he
+    (C06_inv_init _ _)).items k it h).owner e he
 
 /-- The reply contract for the request that follows any history (repaired code, real
     capacities): the reply echoes the server's receive timestamp, distinct from all kept for
@@ -288,7 +288,7 @@ theorem C06_reply_contract (ops : List Op) (hs : ∀ op ∈ ops, SaneOp op) (id 
     (r.reply.inter = false → r.reply.org = req.tx ∧ r.reply.tx = ofTime r.txt ∧
       Later r.reply.rx r.reply.tx) := by
   intro st r
-  have inv := C06_inv_run tssCap tssItemCap (by decide) (by decide) (by decide) ops hs init (inv_init _ _)
+  have inv := C06_inv_run tssCap tssItemCap (by decide) (by decide) (by decide) ops hs init (C06_inv_init _ _)
   have h1 := C06_rx_echo_unique true tssCap tssItemCap (by decide) st inv id req rxt now
   have h2 := C06_interleaved_iff true tssCap tssItemCap st id req rxt now
   have h5 := C06_txt_later true tssCap tssItemCap st id req rxt now (Or.inl rfl)
